@@ -176,6 +176,29 @@ def handleExtension (j : Json) : Json :=
   | some s => Json.mkObj [("kind", "ok"), ("extension", charsToJson s)]
   | none => Json.mkObj [("kind", "raises")]
 
+def decodeRecipe (j : Json) (k : String) : Recipe :=
+  match j.getObjVal? k with
+  | .ok (Json.arr a) => a.toList.filterMap (fun x => match x with
+      | Json.arr #[Json.str t, ty] => (ty.getNat?.toOption).map (fun n => (t.toList, n))
+      | _ => none)
+  | _ => []
+
+def handleMatch (j : Json) : Json :=
+  let g := decodeRecipe j "g"
+  let q := decodeRecipe j "q"
+  Json.mkObj [("basic", Json.bool (Query.matchBasic g q)), ("some", Json.bool (Query.matchSome g q)),
+              ("g_has_sac", Json.bool (Model.firstOfType g Gen.frontCfg.tSAC).isSome), ("q_has_sac", Json.bool (Model.firstOfType q Gen.frontCfg.tSAC).isSome)]
+
+def handleStart (j : Json) : Json :=
+  let numbers : List Int := match j.getObjVal? "numbers" with
+    | .ok (Json.arr a) => a.toList.map (fun x => (x.getInt?.toOption).getD 0)
+    | _ => []
+  let start := (j.getObjValAs? Int "start").toOption.getD 0
+  let suffix := ((j.getObjValAs? String "suffix").toOption.getD "").toList.head?
+  let opt := (((j.getObjValAs? String "option").toOption.getD "n").toList.head?).getD 'n'
+  Json.mkObj [("position", match Query.startAtom numbers start with | some i => Json.num i | none => Json.null),
+              ("config", match Query.rootConfig suffix opt with | some c => Json.str (String.singleton c) | none => Json.null)]
+
 def handleReact (j : Json) : Json :=
   let str (k : String) := ((j.getObjValAs? String k).toOption.getD "").toList
   let nat (k : String) := (j.getObjValAs? Nat k).toOption.getD 0
@@ -213,6 +236,8 @@ def handle (line : String) : Json :=
     | some "cli" => handleCli j
     | some "gate" => handleGate j
     | some "create" => handleCreate j
+    | some "match" => handleMatch j
+    | some "start" => handleStart j
     | some "openform" => handleOpenForm j
     | some "extension" => handleExtension j
     | some "merge" => handleMerge j
